@@ -700,6 +700,21 @@ def write_top(path, desc):
             out.write("P%s 72.0 0.0 A %g 0.1\n" % (mt["name"], mt.get("sigma", 0.4)))
         for mt in desc["moltypes"]:
             out.write("[ moleculetype ]\n%s 1\n[ atoms ]\n" % mt["name"])
+            if mt.get("split"):
+                # the topology BEFORE `-split`: residues of two particles A, B; `mt` describes the molecule after it
+                nres = len(mt["resnames"]) // 2
+                bonds = []
+                for i in range(nres):
+                    first = 2 * i + 1
+                    out.write("%d P%s %d %s A %d 0.0 72.0\n" % (first, mt["name"], i + 1, mt["split"], first))
+                    out.write("%d P%s %d %s B %d 0.0 72.0\n" % (first + 1, mt["name"], i + 1, mt["split"], first + 1))
+                    bonds.append((first, first + 1))
+                    if i:
+                        bonds.append((first - 1, first))
+                out.write("[ bonds ]\n")
+                for a, b in bonds:
+                    out.write("%d %d 1 0.47 1250\n" % (a, b))
+                continue
             for i, resname in enumerate(mt["resnames"], start=1):
                 out.write("%d P%s %d %s B %d 0.0 72.0\n" % (i, mt["name"], resid_of(mt, i - 1), resname, i))
             if mt["bonds"]:
@@ -1418,6 +1433,32 @@ def gen_shared_reference(sub):
                 build=[dict(mol="A", frm=0, to=count, items=items)], options=dict(grid_spacing=0.5))
 
 
+def gen_split_system(sub):
+    """the option pair `-split` + build file: a chain of two-particle residues is split into one-particle residues
+    (names SA, SB alternating, numbered 0..2n-1 by the program), and the build file restrains the residues that exist
+    AFTER the split — regions and a growth direction, selected by the new names and ids"""
+    npre = sub.randint(2, 5)
+    n = 2 * npre
+    mt = dict(name="A", resnames=["SA", "SB"] * npre, bonds=[(i, i + 1) for i in range(n - 1)], ring=False,
+              sigma=sub.choice([0.3, 0.4, 0.5]), split="RS", resids=list(range(n)))
+    box = float(sub.choice([6, 7, 8]))
+    items = []
+    for _ in range(sub.randint(1, 2)):
+        it = gen_geom_item(sub, mt, box)
+        it["start"], it["stop"] = it["start"] - 1, it["stop"] - 1          # ids start at 0 after the split
+        items.append(it)
+    if sub.random() < 0.6:
+        start = sub.randint(0, n - 1)
+        items.append(dict(kind="rw", resname=sub.choice(["SA", "SB"]), start=start, stop=sub.randint(start + 1, n),
+                          normal=[float(x) for x in sub.choice([[0, 0, 1], [1, 0, 0], [0, 1, 0], [1, 1, 0]])],
+                          angle=sub.choice([90.0, 75.0, 60.0, -120.0])))
+    count = sub.choice([1, 1, 2])
+    desc = dict(moltypes=[mt], molecules=[("A", count)], box=[box] * 3,
+                build=[dict(mol="A", frm=0, to=count, items=items)],
+                options=dict(grid_spacing=0.25, split=["RS:SA-A:SB-B"]))
+    return desc
+
+
 def e2e_cases(ctx):
     rng = ctx.rng
     flavours = ["geom", "dir", "dist", "ring", "persist", "mixed", "dir", "ring"]
@@ -1438,6 +1479,9 @@ def e2e_cases(ctx):
                                seed=sub.randint(0, 10 ** 6)))
     for i in range(ctx.budget(12, 120)):
         renumbered.append(dict(stream="e2e", flavour="dist-shared-ref", desc=gen_shared_reference(sub),
+                               seed=sub.randint(0, 10 ** 6)))
+    for i in range(ctx.budget(12, 120)):
+        renumbered.append(dict(stream="e2e", flavour="split+build-file", desc=tighten(sub, gen_split_system(sub)),
                                seed=sub.randint(0, 10 ** 6)))
     cases = renumbered + cases
     return cases
